@@ -1,6 +1,7 @@
 package main
 
 import (
+	"fmt"
 	"go/ast"
 	"go/token"
 	"go/types"
@@ -17,7 +18,7 @@ func init() {
 		Rules: []*Rule{
 			{ID: "C10.R1", Floor: 3, Doc: "replica appended only after a negative per-token membership test (no node twice)", Run: c10r1},
 			{ID: "C10.R2", Floor: 2, Doc: "ring lookups index after the empty check and wrap-around", Run: c10r2},
-			{ID: "C10.R3", Floor: 2, Doc: "replication factor parsing: success returns are non-negative", Run: c10r3},
+			{ID: "C10.R3", Floor: 1, Doc: "replication factor parsing: success returns are non-negative", Run: c10r3},
 			{ID: "C10.R4", Floor: 2, Doc: "ring walks cover all ring positions (j < len(tokens), index modulo len(tokens))", Run: c10r4},
 			{ID: "C10.R5", Floor: 3, Doc: "strategy selection by class; invalid options give no strategy", Run: c10r5},
 			{ID: "C10.R6", Floor: 2, Doc: "NetworkTopologyStrategy: in every block, hosts appended to the replica list and additions to the per-DC replica count balance", Run: c10r6},
@@ -37,132 +38,326 @@ func replicaMapImpls(p *Program) []*FuncInfo {
 	return out
 }
 
+// unitsOf: fi and the private helpers it was split into (transitively, three levels).
+func (p *Program) unitsOf(fi *FuncInfo) []*FuncInfo {
+	out := []*FuncInfo{fi}
+	seen := map[*FuncInfo]bool{fi: true}
+	var add func(f *FuncInfo, depth int)
+	add = func(f *FuncInfo, depth int) {
+		if depth > 3 {
+			return
+		}
+		for _, c := range p.privateCallees(f) {
+			if !seen[c] {
+				seen[c] = true
+				out = append(out, c)
+				add(c, depth+1)
+			}
+		}
+	}
+	add(fi, 0)
+	return out
+}
+
+// listResult classifies result idx of a helper that returns a slice: "fresh" (a list created by the helper:
+// make / literal / nil and appends to itself), "param:k" (parameter k, possibly extended by appends), "" otherwise.
+func (p *Program) listResult(callee *FuncInfo, idx int) string {
+	if callee.Decl.Body == nil || callee.Obj == nil {
+		return ""
+	}
+	info := callee.Pkg.TypesInfo
+	sig := callee.Obj.Type().(*types.Signature)
+	kind := ""
+	ok := true
+	n := 0
+	classify := func(obj types.Object) string {
+		for i := 0; i < sig.Params().Len(); i++ {
+			if sig.Params().At(i) == obj {
+				// the parameter may only be re-bound to appends of itself
+				good := true
+				ast.Inspect(callee.Decl.Body, func(y ast.Node) bool {
+					if as, isAs := y.(*ast.AssignStmt); isAs {
+						for j, l := range as.Lhs {
+							if lid, isId := l.(*ast.Ident); isId && info.Uses[lid] == obj {
+								if j >= len(as.Rhs) {
+									good = false
+									continue
+								}
+								c, isC := ast.Unparen(as.Rhs[j]).(*ast.CallExpr)
+								if !isC || exprStr(c.Fun) != "append" || len(c.Args) == 0 || !isIdentOf(info, c.Args[0], obj) {
+									good = false
+								}
+							}
+						}
+					}
+					return true
+				})
+				if good {
+					return "param:" + itoa(i)
+				}
+				return ""
+			}
+		}
+		// a local: every definition creates or extends it
+		good, ndef := true, 0
+		ast.Inspect(callee.Decl.Body, func(y ast.Node) bool {
+			switch st := y.(type) {
+			case *ast.AssignStmt:
+				for j, l := range st.Lhs {
+					lid, isId := l.(*ast.Ident)
+					if !isId || (info.Defs[lid] != obj && info.Uses[lid] != obj) {
+						continue
+					}
+					ndef++
+					if len(st.Rhs) != len(st.Lhs) {
+						good = false
+						continue
+					}
+					switch v := ast.Unparen(st.Rhs[j]).(type) {
+					case *ast.CallExpr:
+						f := exprStr(v.Fun)
+						if !(f == "make" || f == "append" && len(v.Args) > 0 && isIdentOf(info, v.Args[0], obj)) {
+							good = false
+						}
+					case *ast.CompositeLit:
+					case *ast.Ident:
+						if v.Name != "nil" {
+							good = false
+						}
+					default:
+						good = false
+					}
+				}
+			case *ast.ValueSpec:
+				for _, vn := range st.Names {
+					if info.Defs[vn] == obj {
+						ndef++
+						if len(st.Values) != 0 {
+							good = false
+						}
+					}
+				}
+			}
+			return true
+		})
+		if good && ndef > 0 {
+			return "fresh"
+		}
+		return ""
+	}
+	inspectNoLit(callee.Decl.Body, func(x ast.Node) bool {
+		rs, isR := x.(*ast.ReturnStmt)
+		if !isR {
+			return true
+		}
+		n++
+		var e ast.Expr
+		if len(rs.Results) == sig.Results().Len() && idx < len(rs.Results) {
+			e = ast.Unparen(rs.Results[idx])
+		} else if len(rs.Results) == 0 && sig.Results().At(idx).Name() != "" {
+			e = ast.NewIdent(sig.Results().At(idx).Name())
+			ok = false // named results: not needed so far
+			return true
+		} else {
+			ok = false
+			return true
+		}
+		id, isId := e.(*ast.Ident)
+		if !isId {
+			ok = false
+			return true
+		}
+		if id.Name == "nil" {
+			return true
+		}
+		k := classify(info.Uses[id])
+		if k == "" || kind != "" && kind != k {
+			ok = false
+		}
+		kind = k
+		return true
+	})
+	if !ok || n == 0 {
+		return ""
+	}
+	return kind
+}
+
 func c10r1(p *Program, r *Report) {
 	impls := replicaMapImpls(p)
 	if len(impls) < 2 {
 		r.Unresolved("expected 2 replicaMap implementations, found %d", len(impls))
 	}
-	for _, fi := range impls {
-		g := p.GraphOf(fi)
-		info := g.Info
-		// deduped: host expressions known absent from a per-token set at the time they were tested
-		dedup := Solve(g, Lattice[strset]{
-			Init: strset{}, Join: func(a, b strset) strset { return a.intersect(b) }, Eq: func(a, b strset) bool { return a.eq(b) },
-			Step: func(s strset, st Step) strset {
-				switch st.Kind {
-				case StCond:
-					ce, val := ast.Unparen(st.Node.(ast.Expr)), st.Val
-					for {
-						if u, ok := ce.(*ast.UnaryExpr); ok && u.Op == token.NOT {
-							ce, val = ast.Unparen(u.X), !val
-							continue
-						}
-						break
-					}
-					var ix *ast.IndexExpr
-					switch x := ce.(type) {
-					case *ast.IndexExpr: // seen[h]
-						ix = x
-					case *ast.Ident: // _, ok := seen[h]
-						ix = commaOkSource(g, info, x, st.Node)
-					}
-					if ix != nil && !val {
-						if m, ok := info.TypeOf(ix.X).Underlying().(*types.Map); ok && strings.Contains(m.Key().String(), "HostInfo") {
-							s = s.with(exprStr(ix.Index))
-						}
-					}
-				case StNode:
-					for _, l := range assignedLHS(st.Node) {
-						if _, isIx := ast.Unparen(l).(*ast.IndexExpr); isIx {
-							continue
-						}
-						ls := exprStr(l)
-						for k := range s {
-							if mentions(k, ls) {
-								s = s.without(k)
+	for _, impl := range impls {
+		n := 0
+		unitLists := map[*FuncInfo]map[string]bool{}
+		for pass := 0; pass < 2; pass++ {
+			for _, fi := range p.unitsOf(impl) {
+				fi := fi
+				g := p.GraphOf(fi)
+				info := g.Info
+				// deduped: host expressions known absent from a per-token set at the time they were tested
+				dedup := Solve(g, Lattice[strset]{
+					Init: strset{}, Join: func(a, b strset) strset { return a.intersect(b) }, Eq: func(a, b strset) bool { return a.eq(b) },
+					Step: func(s strset, st Step) strset {
+						switch st.Kind {
+						case StCond:
+							ce, val := ast.Unparen(st.Node.(ast.Expr)), st.Val
+							for {
+								if u, ok := ce.(*ast.UnaryExpr); ok && u.Op == token.NOT {
+									ce, val = ast.Unparen(u.X), !val
+									continue
+								}
+								break
+							}
+							var ix *ast.IndexExpr
+							switch x := ce.(type) {
+							case *ast.IndexExpr: // seen[h]
+								ix = x
+							case *ast.Ident: // _, ok := seen[h]
+								ix = commaOkSource(g, info, x, st.Node)
+							}
+							if ix != nil && !val {
+								if m, ok := info.TypeOf(ix.X).Underlying().(*types.Map); ok && strings.Contains(m.Key().String(), "HostInfo") {
+									s = s.with(exprStr(ix.Index))
+								}
+							}
+						case StNode:
+							for _, l := range assignedLHS(st.Node) {
+								if _, isIx := ast.Unparen(l).(*ast.IndexExpr); isIx {
+									continue
+								}
+								ls := exprStr(l)
+								for k := range s {
+									if mentions(k, ls) {
+										s = s.without(k)
+									}
+								}
 							}
 						}
+						return s
+					},
+				})
+				// the replica slice variable: []*HostInfo appended to and stored into hostTokens
+				var dedupLists = map[string]bool{} // slices (source text) that only ever receive deduped hosts
+				// pass 1: appends into map-of-slices (skipped lists)
+				ast.Inspect(fi.Decl.Body, func(x ast.Node) bool {
+					as, ok := x.(*ast.AssignStmt)
+					if !ok || len(as.Lhs) != 1 || len(as.Rhs) != 1 {
+						return true
 					}
+					c, ok := ast.Unparen(as.Rhs[0]).(*ast.CallExpr)
+					if !ok || calleeName(info, c) != "builtin.append" || len(c.Args) != 2 || c.Ellipsis.IsValid() {
+						return true
+					}
+					if ix, ok := ast.Unparen(as.Lhs[0]).(*ast.IndexExpr); ok && exprStr(c.Args[0]) == exprStr(as.Lhs[0]) {
+						base := exprStr(ix.X)
+						s, _ := dedup.Before(as)
+						if s[exprStr(c.Args[1])] {
+							if _, seen := dedupLists[base]; !seen {
+								dedupLists[base] = true
+							}
+						} else {
+							dedupLists[base] = false
+						}
+					}
+					return true
+				})
+				unitLists[fi] = dedupLists
+				if pass == 0 {
+					continue
 				}
-				return s
-			},
-		})
-		// the replica slice variable: []*HostInfo appended to and stored into hostTokens
-		n := 0
-		var dedupLists = map[string]bool{} // slices (source text) that only ever receive deduped hosts
-		// pass 1: appends into map-of-slices (skipped lists)
-		ast.Inspect(fi.Decl.Body, func(x ast.Node) bool {
-			as, ok := x.(*ast.AssignStmt)
-			if !ok || len(as.Lhs) != 1 || len(as.Rhs) != 1 {
-				return true
-			}
-			c, ok := ast.Unparen(as.Rhs[0]).(*ast.CallExpr)
-			if !ok || calleeName(info, c) != "builtin.append" || len(c.Args) != 2 || c.Ellipsis.IsValid() {
-				return true
-			}
-			if ix, ok := ast.Unparen(as.Lhs[0]).(*ast.IndexExpr); ok && exprStr(c.Args[0]) == exprStr(as.Lhs[0]) {
-				base := exprStr(ix.X)
-				s, _ := dedup.Before(as)
-				if s[exprStr(c.Args[1])] {
-					if _, seen := dedupLists[base]; !seen {
-						dedupLists[base] = true
+				// listIsDeduped: e (in unit u) denotes a list that only holds hosts which passed the membership test
+				var listIsDeduped func(u *FuncInfo, e ast.Expr, depth int) (bool, string)
+				listIsDeduped = func(u *FuncInfo, e ast.Expr, depth int) (bool, string) {
+					e = ast.Unparen(e)
+					uinfo := u.Pkg.TypesInfo
+					if ix, isIx := e.(*ast.IndexExpr); isIx && unitLists[u][exprStr(ix.X)] {
+						return true, exprStr(ix.X)
 					}
-				} else {
-					dedupLists[base] = false
+					id, isId := e.(*ast.Ident)
+					if !isId || depth > 3 {
+						return false, ""
+					}
+					if def := localDef(uinfo, u, id); def != nil {
+						return listIsDeduped(u, def, depth+1)
+					}
+					// a parameter of a helper: every call site passes such a list
+					if u.Obj != nil {
+						sig := u.Obj.Type().(*types.Signature)
+						for i := 0; i < sig.Params().Len(); i++ {
+							if sig.Params().At(i) != uinfo.Uses[id] {
+								continue
+							}
+							nsite, all, from := 0, true, ""
+							for _, caller := range p.unitsOf(impl) {
+								for _, c := range callsIn(caller.Decl.Body) {
+									if fn := calleeOf(caller.Pkg.TypesInfo, c); fn != nil && p.FuncOf(fn) == u && i < len(c.Args) {
+										nsite++
+										okA, w := listIsDeduped(caller, c.Args[i], depth+1)
+										if !okA {
+											all = false
+										}
+										from = w
+									}
+								}
+							}
+							return nsite > 0 && all, from
+						}
+					}
+					return false, ""
 				}
-			}
-			return true
-		})
-		ast.Inspect(fi.Decl.Body, func(x ast.Node) bool {
-			as, ok := x.(*ast.AssignStmt)
-			if !ok || len(as.Lhs) != 1 || len(as.Rhs) != 1 {
-				return true
-			}
-			c, ok := ast.Unparen(as.Rhs[0]).(*ast.CallExpr)
-			if !ok || calleeName(info, c) != "builtin.append" || len(c.Args) < 2 {
-				return true
-			}
-			lid, ok := as.Lhs[0].(*ast.Ident)
-			if !ok || exprStr(c.Args[0]) != lid.Name {
-				return true
-			}
-			if t := info.TypeOf(lid); t == nil || !strings.Contains(t.String(), "[]*") || !strings.Contains(t.String(), "HostInfo") {
-				return true
-			}
-			n++
-			name := fi.Name + " appends " + exprStr(c.Args[1]) + " to the replica list"
-			s, _ := dedup.Before(as)
-			arg := c.Args[1]
-			ok2 := s[exprStr(arg)]
-			why := "dominated by a negative membership test on " + exprStr(arg)
-			if !ok2 {
-				// element of a list that only holds deduped hosts: sh := skippedHosts[k]; skippedHosts := skipped[dc]
-				src := arg
-				if c.Ellipsis.IsValid() {
-					if sl, isSl := ast.Unparen(arg).(*ast.SliceExpr); isSl {
-						src = sl.X
+				ast.Inspect(fi.Decl.Body, func(x ast.Node) bool {
+					as, ok := x.(*ast.AssignStmt)
+					if !ok || len(as.Lhs) != 1 || len(as.Rhs) != 1 {
+						return true
 					}
-				} else if id, isId := ast.Unparen(arg).(*ast.Ident); isId {
-					if def := localDef(info, fi, id); def != nil {
-						if ix, isIx := ast.Unparen(def).(*ast.IndexExpr); isIx {
+					c, ok := ast.Unparen(as.Rhs[0]).(*ast.CallExpr)
+					if !ok || calleeName(info, c) != "builtin.append" || len(c.Args) < 2 {
+						return true
+					}
+					lid, ok := as.Lhs[0].(*ast.Ident)
+					if !ok || exprStr(c.Args[0]) != lid.Name {
+						return true
+					}
+					if t := info.TypeOf(lid); t == nil || !strings.Contains(t.String(), "[]*") || !strings.Contains(t.String(), "HostInfo") {
+						return true
+					}
+					n++
+					name := fi.Name + " appends " + exprStr(c.Args[1]) + " to the replica list"
+					s, _ := dedup.Before(as)
+					arg := c.Args[1]
+					ok2 := s[exprStr(arg)]
+					why := "dominated by a negative membership test on " + exprStr(arg)
+					if !ok2 {
+						// element of a list that only holds deduped hosts: sh := skippedHosts[k]; skippedHosts := skipped[dc]
+						src := arg
+						if c.Ellipsis.IsValid() {
+							if sl, isSl := ast.Unparen(arg).(*ast.SliceExpr); isSl {
+								src = sl.X
+							}
+						} else if id, isId := ast.Unparen(arg).(*ast.Ident); isId {
+							if def := localDef(info, fi, id); def != nil {
+								if ix, isIx := ast.Unparen(def).(*ast.IndexExpr); isIx {
+									src = ix.X
+								}
+							}
+						}
+						if ix, isIx := ast.Unparen(arg).(*ast.IndexExpr); isIx && !c.Ellipsis.IsValid() {
 							src = ix.X
 						}
-					}
-				}
-				if id, isId := ast.Unparen(src).(*ast.Ident); isId {
-					if def := localDef(info, fi, id); def != nil {
-						if ix, isIx := ast.Unparen(def).(*ast.IndexExpr); isIx && dedupLists[exprStr(ix.X)] {
+						if okL, from := listIsDeduped(fi, src, 0); okL {
 							ok2 = true
-							why = "taken from " + exprStr(ix.X) + ", which only receives hosts that passed the membership test"
+							why = "taken from " + from + ", which only receives hosts that passed the membership test"
 						}
 					}
-				}
+					r.Check(ok2, as, name, why, "a node is appended to a token's replica list without a preceding negative membership test on a per-token set: with virtual nodes the same node is listed twice (and displaces a real replica; the token-aware policy offers it twice)")
+					return true
+				})
 			}
-			r.Check(ok2, as, name, why, "a node is appended to a token's replica list without a preceding negative membership test on a per-token set: with virtual nodes the same node is listed twice (and displaces a real replica; the token-aware policy offers it twice)")
-			return true
-		})
+		}
 		if n == 0 {
-			r.Unresolved("%s: no append to a replica list", fi.Name)
+			r.Unresolved("%s: no append to a replica list", impl.Name)
 		}
 	}
 }
@@ -255,77 +450,80 @@ func c10r3(p *Program, r *Report) {
 }
 
 func c10r4(p *Program, r *Report) {
-	for _, fi := range replicaMapImpls(p) {
-		info := fi.Pkg.TypesInfo
+	for _, impl := range replicaMapImpls(p) {
 		found := false
-		ast.Inspect(fi.Decl.Body, func(x ast.Node) bool {
-			fs, ok := x.(*ast.ForStmt)
-			if !ok || fs.Cond == nil {
-				return true
-			}
-			// the inner walk: a for loop nested in another loop
-			if !p.inLoop(fs, fi.Decl) {
-				return true
-			}
-			// does it index a []hostToken?
-			var tokIdx *ast.IndexExpr
-			ast.Inspect(fs.Body, func(m ast.Node) bool {
-				if ix, ok := m.(*ast.IndexExpr); ok && tokIdx == nil {
-					if t := info.TypeOf(ix.X); t != nil && strings.Contains(t.String(), "hostToken") {
-						tokIdx = ix
+		for _, fi := range p.unitsOf(impl) {
+			fi := fi
+			info := fi.Pkg.TypesInfo
+			ast.Inspect(fi.Decl.Body, func(x ast.Node) bool {
+				fs, ok := x.(*ast.ForStmt)
+				if !ok || fs.Cond == nil {
+					return true
+				}
+				// the inner walk: a for loop nested in another loop (or moved into a helper of its own)
+				if fi == impl && !p.inLoop(fs, fi.Decl) {
+					return true
+				}
+				// does it index a []hostToken?
+				var tokIdx *ast.IndexExpr
+				ast.Inspect(fs.Body, func(m ast.Node) bool {
+					if ix, ok := m.(*ast.IndexExpr); ok && tokIdx == nil {
+						if t := info.TypeOf(ix.X); t != nil && strings.Contains(t.String(), "hostToken") {
+							tokIdx = ix
+						}
+					}
+					return true
+				})
+				if tokIdx == nil {
+					return true
+				}
+				found = true
+				tokens := exprStr(tokIdx.X)
+				// loop variable
+				loopVar := ""
+				if as, ok := fs.Init.(*ast.AssignStmt); ok && len(as.Lhs) == 1 {
+					loopVar = exprStr(as.Lhs[0])
+				}
+				var atoms []string
+				var split func(e ast.Expr)
+				split = func(e ast.Expr) {
+					e = ast.Unparen(e)
+					if b, ok := e.(*ast.BinaryExpr); ok && b.Op == token.LAND {
+						split(b.X)
+						split(b.Y)
+						return
+					}
+					atoms = append(atoms, exprStr(e))
+				}
+				split(fs.Cond)
+				bounded := false
+				for _, a := range atoms {
+					if a == loopVar+" < len("+tokens+")" {
+						bounded = true
 					}
 				}
+				r.Check(bounded, fs, fi.Name+" ring walk covers every ring position", "bounded by "+loopVar+" < len("+tokens+")",
+					"the clockwise walk is not bounded by the number of ring positions (len("+tokens+")): with virtual nodes it stops before enough distinct nodes were seen (replica lists too short) or runs past the ring")
+				// index stays inside the ring: modulo len(tokens) or explicit wrap
+				idx := exprStr(tokIdx.Index)
+				wrapOK := strings.Contains(idx, "% len("+tokens+")")
+				if !wrapOK {
+					if id, ok := ast.Unparen(tokIdx.Index).(*ast.Ident); ok {
+						// p := i + j; if p >= len(tokens) { p -= len(tokens) }
+						ast.Inspect(fs.Body, func(m ast.Node) bool {
+							if ifs, ok := m.(*ast.IfStmt); ok && exprStr(ifs.Cond) == id.Name+" >= len("+tokens+")" {
+								wrapOK = true
+							}
+							return true
+						})
+					}
+				}
+				r.Check(wrapOK, tokIdx, fi.Name+" ring walk wraps around", "index reduced modulo len("+tokens+")", "the walk index is not wrapped at the end of the ring")
 				return true
 			})
-			if tokIdx == nil {
-				return true
-			}
-			found = true
-			tokens := exprStr(tokIdx.X)
-			// loop variable
-			loopVar := ""
-			if as, ok := fs.Init.(*ast.AssignStmt); ok && len(as.Lhs) == 1 {
-				loopVar = exprStr(as.Lhs[0])
-			}
-			var atoms []string
-			var split func(e ast.Expr)
-			split = func(e ast.Expr) {
-				e = ast.Unparen(e)
-				if b, ok := e.(*ast.BinaryExpr); ok && b.Op == token.LAND {
-					split(b.X)
-					split(b.Y)
-					return
-				}
-				atoms = append(atoms, exprStr(e))
-			}
-			split(fs.Cond)
-			bounded := false
-			for _, a := range atoms {
-				if a == loopVar+" < len("+tokens+")" {
-					bounded = true
-				}
-			}
-			r.Check(bounded, fs, fi.Name+" ring walk covers every ring position", "bounded by "+loopVar+" < len("+tokens+")",
-				"the clockwise walk is not bounded by the number of ring positions (len("+tokens+")): with virtual nodes it stops before enough distinct nodes were seen (replica lists too short) or runs past the ring")
-			// index stays inside the ring: modulo len(tokens) or explicit wrap
-			idx := exprStr(tokIdx.Index)
-			wrapOK := strings.Contains(idx, "% len("+tokens+")")
-			if !wrapOK {
-				if id, ok := ast.Unparen(tokIdx.Index).(*ast.Ident); ok {
-					// p := i + j; if p >= len(tokens) { p -= len(tokens) }
-					ast.Inspect(fs.Body, func(m ast.Node) bool {
-						if ifs, ok := m.(*ast.IfStmt); ok && exprStr(ifs.Cond) == id.Name+" >= len("+tokens+")" {
-							wrapOK = true
-						}
-						return true
-					})
-				}
-			}
-			r.Check(wrapOK, tokIdx, fi.Name+" ring walk wraps around", "index reduced modulo len("+tokens+")", "the walk index is not wrapped at the end of the ring")
-			return true
-		})
+		}
 		if !found {
-			r.Unresolved("%s: no ring walk loop found", fi.Name)
+			r.Unresolved("%s: no ring walk loop found", impl.Name)
 		}
 	}
 }
@@ -337,32 +535,52 @@ func c10r5(p *Program, r *Report) {
 	}
 	info := fi.Pkg.TypesInfo
 	classes := map[string]string{"SimpleStrategy": "simpleStrategy", "NetworkTopologyStrategy": "networkTopology"}
-	seen := map[string]bool{}
-	ast.Inspect(fi.Decl.Body, func(x ast.Node) bool {
-		cc, ok := x.(*ast.CaseClause)
-		if !ok || len(cc.List) != 1 {
-			return true
+	tr := newReadTracer(p)
+	tr.prims = map[string]string{}
+	tr.noAuto = func(string) bool { return true }
+	got := map[string]map[string]bool{}
+	otherStrategy := ""
+	for _, st := range tr.run(fi, 4) {
+		if st.retStmt == nil || len(st.retStmt.Results) != 1 {
+			continue
 		}
-		for class, typ := range classes {
-			if !strings.Contains(exprStr(cc.List[0]), `"`+class+`"`) {
-				continue
+		lits := trueLits(st, "strings.Contains")
+		typ := "nil"
+		if !isNil(info, st.retStmt.Results[0]) {
+			typ = typeNameOf(info.TypeOf(st.retStmt.Results[0]))
+		}
+		cls := ""
+		for _, l := range lits {
+			if _, known := classes[l]; known {
+				cls = l
 			}
-			seen[class] = true
-			okType := false
-			ast.Inspect(cc, func(m ast.Node) bool {
-				if rs, ok := m.(*ast.ReturnStmt); ok && len(rs.Results) == 1 && !isNil(info, rs.Results[0]) {
-					okType = typeNameOf(info.TypeOf(rs.Results[0])) == typ
-				}
-				return true
-			})
-			r.Check(okType, cc, "getStrategy "+class+" -> "+typ, "class name selects its strategy", "keyspaces with class "+class+" are not given the "+typ+" placement")
 		}
-		return true
-	})
-	for class := range classes {
-		if !seen[class] {
+		if cls == "" {
+			if typ != "nil" {
+				otherStrategy = typ
+			}
+			continue
+		}
+		if got[cls] == nil {
+			got[cls] = map[string]bool{}
+		}
+		got[cls][typ] = true
+	}
+	for class, typ := range classes {
+		if len(got[class]) == 0 {
 			r.Bad(fi.Decl, "getStrategy handles "+class, "no case for "+class)
+			continue
 		}
+		okType := got[class][typ]
+		for t := range got[class] {
+			if t != typ && t != "nil" {
+				okType = false
+			}
+		}
+		r.Check(okType, fi.Decl, "getStrategy "+class+" -> "+typ, "class name selects its strategy", "keyspaces with class "+class+" are not given the "+typ+" placement")
+	}
+	if otherStrategy != "" {
+		r.Bad(fi.Decl, "getStrategy gives no strategy for other classes", "a keyspace whose class is neither SimpleStrategy nor NetworkTopologyStrategy is given a "+otherStrategy)
 	}
 	// a replication-factor parse error never yields a strategy with a made-up factor: error branches return nil / continue
 	n := 0
@@ -496,9 +714,11 @@ func c10r6(p *Program, r *Report) {
 		count lin            // current value of replicasInDC[dc]
 		done  bool
 		unk   string
+		rets  []lin // values of a helper's return statement (nil entry: not an affine integer)
+		isRet bool
 	}
 	clone := func(s *pstate) *pstate {
-		n := &pstate{env: map[string]lin{}, app: add(s.app, nil, 1), count: add(s.count, nil, 1), done: s.done, unk: s.unk}
+		n := &pstate{env: map[string]lin{}, app: add(s.app, nil, 1), count: add(s.count, nil, 1), done: s.done, unk: s.unk, isRet: s.isRet, rets: s.rets}
 		for k, v := range s.env {
 			n.env[k] = add(v, nil, 1)
 		}
@@ -532,6 +752,7 @@ func c10r6(p *Program, r *Report) {
 		}
 		return nil, false
 	}
+	helperDepth := 0
 	var exec func(list []ast.Stmt, in []*pstate) []*pstate
 	exec = func(list []ast.Stmt, in []*pstate) []*pstate {
 		states := in
@@ -543,7 +764,99 @@ func c10r6(p *Program, r *Report) {
 					continue
 				}
 				switch x := st.(type) {
+				case *ast.ReturnStmt:
+					s.rets = nil
+					for _, re := range x.Results {
+						if v, ok := evalLin(s, re); ok {
+							s.rets = append(s.rets, v)
+						} else {
+							s.rets = append(s.rets, nil)
+						}
+					}
+					s.done, s.isRet = true, true
+					next = append(next, s)
 				case *ast.AssignStmt:
+					// replicas, k = helper(replicas, ...): the helper's own appends and the integers it returns
+					if len(x.Rhs) == 1 && len(x.Lhs) >= 1 {
+						if hc, isCall := ast.Unparen(x.Rhs[0]).(*ast.CallExpr); isCall {
+							if fn := calleeOf(info, hc); fn != nil {
+								if callee := p.FuncOf(fn); callee != nil && callee.Pkg == p.Root && callee.Decl.Body != nil && callee != fi && helperDepth < 2 {
+									touchesList := false
+									for _, l := range x.Lhs {
+										if t := info.TypeOf(l); t != nil && strings.Contains(t.String(), "[]*") && strings.Contains(t.String(), "HostInfo") {
+											touchesList = true
+										}
+									}
+									if touchesList {
+										helperDepth++
+										sub := exec(callee.Decl.Body.List, []*pstate{{env: map[string]lin{}, app: lin{}, count: lin{"C": 1}}})
+										helperDepth--
+										var sumApp lin
+										var sumRets []lin
+										agree := len(sub) > 0
+										for i, o := range sub {
+											if o.unk != "" || !o.isRet || str(add(o.count, lin{"C": 1}, -1)) != "0" {
+												agree = false
+												break
+											}
+											if i == 0 {
+												sumApp, sumRets = o.app, o.rets
+												continue
+											}
+											if str(o.app) != str(sumApp) || len(o.rets) != len(sumRets) {
+												agree = false
+												break
+											}
+											for j := range o.rets {
+												if (o.rets[j] == nil) != (sumRets[j] == nil) || o.rets[j] != nil && str(o.rets[j]) != str(sumRets[j]) {
+													agree = false
+												}
+											}
+										}
+										if !agree || len(sumRets) != len(x.Lhs) {
+											s.unk = "helper " + callee.Name + " called at " + p.Pos(x) + " changes the replica list in a way that is not summarised"
+											next = append(next, s)
+											continue
+										}
+										ren := func(a lin) lin {
+											n := lin{}
+											for k, v := range a {
+												if k == "" {
+													n[k] = v
+												} else {
+													n[callee.Name+"."+k] = v
+												}
+											}
+											return n
+										}
+										s.app = add(s.app, ren(sumApp), 1)
+										for j, l := range x.Lhs {
+											if id, isId := ast.Unparen(l).(*ast.Ident); isId {
+												if sumRets[j] != nil {
+													s.env[id.Name] = ren(sumRets[j])
+												} else {
+													delete(s.env, id.Name)
+												}
+											}
+										}
+										next = append(next, s)
+										continue
+									}
+								}
+							}
+						}
+					}
+					if len(x.Lhs) != len(x.Rhs) || len(x.Lhs) > 1 {
+						// tuple assignments: integer destinations become unknown
+						for _, l := range x.Lhs {
+							if id, isId := ast.Unparen(l).(*ast.Ident); isId {
+								delete(s.env, id.Name)
+							}
+							if isCountExpr(l) {
+								s.unk = "the per-datacenter count is set by a tuple assignment at " + p.Pos(x)
+							}
+						}
+					}
 					if c, ok := isReplicaAppend(x); ok {
 						if c.Ellipsis.IsValid() {
 							if sl, ok := ast.Unparen(c.Args[1]).(*ast.SliceExpr); ok && sl.Low == nil && sl.High != nil {
@@ -713,7 +1026,56 @@ func c10r6(p *Program, r *Report) {
 					next = append(next, s)
 				case *ast.BlockStmt:
 					next = append(next, exec(x.List, []*pstate{s})...)
+				case *ast.SwitchStmt:
+					if x.Init != nil {
+						for _, r2 := range exec([]ast.Stmt{x.Init}, []*pstate{s}) {
+							s = r2
+						}
+					}
+					hasDefault := false
+					for _, cl := range x.Body.List {
+						cc := cl.(*ast.CaseClause)
+						if cc.List == nil {
+							hasDefault = true
+						}
+						for _, o := range exec(cc.Body, []*pstate{clone(s)}) {
+							// a break inside a switch clause only leaves the switch
+							if len(cc.Body) > 0 {
+								if br, isBr := cc.Body[len(cc.Body)-1].(*ast.BranchStmt); isBr && br.Tok == token.BREAK && br.Label == nil {
+									o.done = false
+								}
+							}
+							next = append(next, o)
+						}
+					}
+					if !hasDefault {
+						next = append(next, clone(s))
+					}
 				default:
+					touches := false
+					ast.Inspect(st, func(y ast.Node) bool {
+						if as, ok := y.(*ast.AssignStmt); ok {
+							if _, ok := isReplicaAppend(as); ok {
+								touches = true
+							}
+						}
+						if ix, ok := y.(*ast.IndexExpr); ok && isCountExpr(ix) {
+							if pa, isAs := p.Parent(ix).(*ast.AssignStmt); isAs {
+								for _, l := range pa.Lhs {
+									if l == ast.Expr(ix) {
+										touches = true
+									}
+								}
+							}
+							if _, isInc := p.Parent(ix).(*ast.IncDecStmt); isInc {
+								touches = true
+							}
+						}
+						return true
+					})
+					if touches {
+						s.unk = fmt.Sprintf("statement %T at %s changes the replica list or the count in a form the walk analysis does not model", st, p.Pos(st))
+					}
 					next = append(next, s)
 				}
 			}
@@ -767,6 +1129,18 @@ func c10r7(p *Program, r *Report) {
 			if kv, ok := listExpr.(*ast.KeyValueExpr); ok {
 				listExpr = kv.Value
 			}
+			if c, isCall := ast.Unparen(listExpr).(*ast.CallExpr); isCall {
+				// the list is produced by a helper called in this iteration: it must create it
+				if fn := calleeOf(info, c); fn != nil {
+					if callee := p.FuncOf(fn); callee != nil && callee.Pkg == p.Root {
+						n++
+						kind := p.listResult(callee, 0)
+						r.Check(kind == "fresh", cl, name+": replica list of a token range is built for that range", "fresh list created by "+callee.Name+" for this range",
+							"the list stored for a token range is returned by "+callee.Name+", which does not create it for this call: ranges share one replica list, so keys are routed to non-replicas")
+					}
+				}
+				return true
+			}
 			id, ok := ast.Unparen(listExpr).(*ast.Ident)
 			if !ok {
 				return true
@@ -801,6 +1175,25 @@ func c10r7(p *Program, r *Report) {
 						case *ast.CallExpr:
 							f := exprStr(v.Fun)
 							okDef = f == "make" || f == "append" && len(v.Args) > 0 && exprStr(v.Args[0]) == id.Name
+							if fn := calleeOf(info, v); fn != nil && !okDef {
+								if callee := p.FuncOf(fn); callee != nil && callee.Pkg == p.Root {
+									// a helper that creates the list, or that extends the list it is given
+									ri := 0
+									if len(s.Rhs) != len(s.Lhs) {
+										ri = i
+									}
+									switch kind := p.listResult(callee, ri); {
+									case kind == "fresh":
+										okDef = true
+									case strings.HasPrefix(kind, "param:"):
+										var k int
+										for _, ch := range kind[len("param:"):] {
+											k = k*10 + int(ch-'0')
+										}
+										okDef = k < len(v.Args) && exprStr(v.Args[k]) == id.Name
+									}
+								}
+							}
 						case *ast.CompositeLit:
 							okDef = true
 						case *ast.Ident:
